@@ -41,6 +41,29 @@ def _taken_atomically(store, attr):
     return False
 
 
+_VIEWS = {}
+
+
+def _method_view(m, ci, h):
+    """a module level function whose first parameter is the state machine, read as a method of it: a private copy of its
+    tree with that parameter renamed to `self`"""
+    from sa.model import FuncInfo, _clone_ast, set_parents
+    key = (id(m), h.qualname)
+    if key not in _VIEWS:
+        node = _clone_ast(h.node)
+        recv = node.args.args[0].arg
+        for n in ast.walk(node):
+            if isinstance(n, ast.Name) and n.id == recv:
+                n.id = 'self'
+            elif isinstance(n, ast.arg) and n.arg == recv:
+                n.arg = 'self'
+        set_parents(node)
+        v = FuncInfo(h.qualname, node, h.module, ci, None)
+        node.finfo = v
+        _VIEWS[key] = v
+    return _VIEWS[key]
+
+
 def _cycle_unit(m):
     """cycle() and the private methods of the state machine it is split into (transitively; _cleanup and _new_state are
     units with rules of their own)"""
@@ -48,10 +71,19 @@ def _cycle_unit(m):
     seen, todo = [], [_m(m, 'cycle')]
     while todo:
         f = todo.pop()
-        if f in seen:
+        if f in seen or any(f.qualname == g.qualname for g in seen):
             continue
         seen.append(f)
         for c in calls_in(f.node):
+            if isinstance(c.func, ast.Name) and c.args and src(c.args[0]) == 'self':
+                # a module level function the machine is handed to (`_run_states(self)`): read as a method (receiver renamed)
+                h = m.functions.get(f'{f.module.name}.{c.func.id}')
+                if h is not None and h.cls is None and h.node.args.args:
+                    v = _method_view(m, ci, h)
+                    if any(src(x.func) == 'self.statefunc' or call_attr(x) in ('_cleanup', '_new_state') or
+                           (isinstance(x.func, ast.Name) and x.args and src(x.args[0]) == 'self') for x in calls_in(v.node)):
+                        todo.append(v)
+                continue
             if isinstance(c.func, ast.Attribute) and dotted(c.func.value) == 'self' and c.func.attr in ci.methods and \
                     c.func.attr not in ('_cleanup', '_new_state', 'cycle', 'start', 'stop'):
                 h = ci.methods[c.func.attr]
@@ -218,10 +250,19 @@ def cleanup_taken_once(ctx):
     ok = bool(swaps) and all(in_lock(s, '_lock') and _taken_atomically(s, 'cleanup') for s in swaps)
     ctx.check(ok, f'{g.qualname}:cleanup swapped to None inside lock', g.node, 'cleanup, self.cleanup = self.cleanup, None under the lock',
               'the cleanup function is not atomically taken (swapped to None under the lock): it can run twice', g)
-    cc = [i for c in calls_in(g.node) if isinstance(c.func, ast.Name) and c.func.id == 'cleanup' for i in cfg.node_of(c)]
+    # the local(s) the function is taken into, and every use of them: called here, or handed to a helper that calls it
+    taken = {'cleanup'} | {t.id for x in body_walk(g.node) if isinstance(x, ast.Assign) for t, v in
+                           (zip(x.targets[0].elts, x.value.elts) if isinstance(x.targets[0], ast.Tuple) and isinstance(x.value, ast.Tuple)
+                            and len(x.targets[0].elts) == len(x.value.elts) else [(x.targets[0], x.value)])
+                           if isinstance(t, ast.Name) and src(v) == 'self.cleanup'}
+    cc = [i for c in calls_in(g.node) if (isinstance(c.func, ast.Name) and c.func.id in taken) or
+          any(isinstance(a, ast.Name) and a.id in taken for a in c.args) for i in cfg.node_of(c)]
     sw = [i for s in swaps for i in cfg.node_of(s)]
-    ctx.check(bool(cc) and all(cfg.dominates(sw, i) for i in cc), f'{g.qualname}:swap before call', g.node,
-              'the swap dominates the call', 'the cleanup function is called before it was taken', g)
+    if not cc:
+        ctx.undecided(f'{g.qualname}:swap before call', g.node, 'no call of the taken cleanup function recognised in _cleanup', g)
+    else:
+        ctx.check(all(cfg.dominates(sw, i) for i in cc), f'{g.qualname}:swap before call', g.node,
+                  'the swap dominates the call', 'the cleanup function is called before it was taken', g)
     rs = [(t, v, s) for t, v, s in attr_stores(g.node) if t.attr == 'cleanup_reason']
     ok = bool(rs) and all(any(isinstance(a, ast.If) and 'cleanup_reason is None' in src(a.test) for a in ancestors(s)) for t, v, s in rs)
     ctx.check(ok, f'{g.qualname}:first reason is kept', g.node, 'cleanup_reason stored only when None',
@@ -372,6 +413,24 @@ def task_kind_is_tested_on_the_task_itself(ctx):
                         ok = True
                     if 'Stop' in kinds and 'Start' not in kinds and ids <= on_f and not (ids & on_t):
                         ok = True
+            if not ok and hasattr(ast, 'Match'):
+                # `match <e>: case Exception(): .. case Stop(): .. case _: <read>` - the class patterns in front are the tests
+                for a in ancestors(r):
+                    if isinstance(a, ast.match_case):
+                        mt = getattr(a, 'parent', None)
+                        if isinstance(mt, ast.Match) and src(mt.subject) == e:
+                            def classes(pat):
+                                if isinstance(pat, ast.MatchClass):
+                                    return {dotted(pat.cls)}
+                                if isinstance(pat, ast.MatchOr):
+                                    return set().union(*[classes(x) for x in pat.patterns])
+                                return set()
+                            before = set().union(*[classes(c.pattern) for c in mt.cases[:mt.cases.index(a)]]) if mt.cases.index(a) else set()
+                            own = classes(a.pattern)
+                            tests_seen.append(f'match {e}: case {sorted(before | own)}')
+                            if own == {'Start'} or (not own and 'Stop' in before and 'Start' not in before):
+                                ok = True
+                        break
             ctx.check(ok, f'{f.qualname}:`{e}.{r.attr}` read on the Start side', r, f'guarded by an isinstance test of `{e}`',
                       f'`{src(r)}` is read without an isinstance(…, Start / Stop) test of `{e}` deciding the path (tests of that expression seen: '
                       f'{tests_seen or "none"}): when the pending task is a Stop the read raises AttributeError inside the transition callback / the '
